@@ -44,14 +44,15 @@ fn exec(t: &[String]) -> Option<String> {
     }
     let mut w = W::new();
     w.n(m.len());
-    let it: Vec<_> = m.iter().collect();
+    let mode = mode_of(t);
+    let it: Vec<_> = drain_mode(m.iter(), mode);
     w.n(it.len());
     for (g, v) in it { put_gr(&mut w, &g); w.n(*v); }
     w.n(c.qs.len());
     for (i, q) in c.qs.iter().enumerate() {
         crate::with_bedlike!(rot_flavour(fl, i), q, |q| {
             w.flag(m.is_overlapped(&q));
-            let f: Vec<_> = m.find(&q).collect();
+            let f: Vec<_> = drain_mode(m.find(&q), mode + i as u64);
             w.n(f.len());
             for (g, v) in f { w.b(g.chrom().as_bytes()).n(g.start()).n(g.end()).n(*v); }
         });
@@ -127,7 +128,7 @@ fn gen(rng: &mut Rng, tier: Tier) -> Vec<Case> {
     // boundary-directed: small structures, all queries around the endpoints
     for _ in 0..nb {
         let nch = rng.range(1, 3) as usize;
-        let chroms: Vec<&str> = (0..nch).map(|_| *rng.pick(CHROMS)).collect();
+        let chroms: Vec<&str> = gen_chroms(rng, nch);
         let n = rng.range(0, 7) as usize;
         let ivs = gen_intervals(rng, n, 24, true);
         let recs: Vec<(Rec, u64)> = ivs.iter().enumerate().map(|(i, (s, e))| (Rec::new(*rng.pick(&chroms[..]), *s, *e), i as u64)).collect();
@@ -140,7 +141,7 @@ fn gen(rng: &mut Rng, tier: Tier) -> Vec<Case> {
     // random structured: larger sets, one very long record among many short, large coordinates
     for _ in 0..nr {
         let nch = rng.range(1, 4) as usize;
-        let chroms: Vec<&str> = (0..nch).map(|_| *rng.pick(CHROMS)).collect();
+        let chroms: Vec<&str> = gen_chroms(rng, nch);
         let n = rng.range(2, 120) as usize;
         let big = rng.chance(1, 4);
         let base = if big { u64::MAX - 4000 } else if rng.chance(1, 3) { rng.below(1 << 40) } else { 0 };
